@@ -59,7 +59,7 @@ Judge(e) ==
         <<"M_dump", ~e.pre.err /\ ~e.post.err >>
       >>
       bad == {checks[i][1] : i \in {j \in DOMAIN checks : ~checks[j][2]}}
-  IN /\ (bad # {} => PrintT(<<"VIOL", l, l, 0, bad>>))
+  IN /\ (\A n_ \in bad : PrintT(<<"VIOL", l, l, 0, n_>>))
      /\ nviol' = nviol + (IF bad = {} THEN 0 ELSE 1)
 
 Init == l = 1 /\ nviol = 0
